@@ -8,6 +8,7 @@
 #include <cstdint>
 #include <cinttypes>
 #include <cstdlib>
+#include <type_traits>
 #include "iface.h"
 #include <igris/container/sline.h>
 #include <igris/shell/vtermxx.h>
@@ -30,11 +31,25 @@ namespace
 
 namespace c15
 {
+    // igris::sline::newdata(char) returns sline_putchar's result since
+    // `fix: readline reports READLINE_OVERFLOW`; tolerate the older void form
+    template <class S> static int put1(S &s, char c)
+    {
+        if constexpr (std::is_void_v<decltype(s.newdata(c))>)
+        {
+            size_t before = s.current_size();
+            s.newdata(c);
+            return (int)(s.current_size() - before);
+        }
+        else
+            return s.newdata(c);
+    }
+
     struct sline_x : isline
     {
         igris::sline s;
         sline_x(unsigned cap) { s.init(cap); }
-        int putchar(uint8_t c) override { return s.newdata((char)c); }
+        int putchar(uint8_t c) override { return put1(s, (char)c); }
         int newdata(const std::string &d, bool &has_ret) override
         {
             has_ret = false;
